@@ -203,6 +203,12 @@ func genC13(p *Pkg) (map[string]string, error) {
 		{"objectGoSlice.grow: clears the re-exposed tail", "objectGoSlice", "grow", rangesOver("tail", assignsTo("tail[k]"))},
 		{"objectGoSlice.shrink: clears the cut-off tail", "objectGoSlice", "shrink", rangesOver("tail", assignsTo("tail[k]"))},
 		{"objectExportCtx.putTyped: carries an earlier untyped entry into the per-type table", "objectExportCtx", "putTyped", assignsTo("m[key.self.exportType()]")},
+		{"objectGoArrayReflect._putIdx: re-attaches the wrapper when the conversion fails", "objectGoArrayReflect", "_putIdx", callsFn("setReflectValue")},
+		{"objectGoArrayReflect._putIdx: drops the cache entry after a successful store", "objectGoArrayReflect", "_putIdx", assignsTo("o.valueCache[idx]")},
+		{"objectGoReflect._put: detaches the cached field wrapper", "objectGoReflect", "_put", callsFn("copyReflectValueWrapper")},
+		{"objectGoReflect._put: re-attaches the wrapper when the conversion fails", "objectGoReflect", "_put", callsFn("setReflectValue")},
+		{"objectGoReflect._put: drops the cache entry after a successful store", "objectGoReflect", "_put", callsFn("delete")},
+		{"objectGoArrayReflect.swap: moves the cached wrappers with the elements", "objectGoArrayReflect", "swap", callsFn("setReflectValue")},
 		{"baseObject.export: caches before exporting the children", "baseObject", "export", callsFn("put")},
 		{"arrayObject.export: caches before exporting the children", "arrayObject", "export", callsFn("put")},
 	} {
